@@ -375,6 +375,54 @@ func c02Large(x *mc.Exec) {
 	c02RoundTrip(x, c, "C02:large")
 }
 
+// c02TwoStructs: two struct definitions declare the same JSON:API type name with
+// different fields (two versions of a program's model, each in its own schema,
+// both used in one process); documents of both round-trip, in both orders.
+func c02TwoStructs(x *mc.Exec) {
+	v1 := TypeD{Name: "t", Attrs: []AttrD{{"s", kStr}}, Rels: []RelD{{"one", true, "u", ""}}}
+	v2 := TypeD{Name: "t", Attrs: []AttrD{{"colour", kStr}, {"s", kStr}, {"n", kPInt}}, Rels: []RelD{{"many", false, "u", ""}, {"one", true, "u", ""}}}
+	order := [][]TypeD{{v1, v2}, {v2, v1}, {v2, v1, v2}}[x.Choose(3, "order")]
+	coll := x.Bool("collection")
+	for i, d := range order {
+		c := &DocCase{DataKind: "single", Schema: BuildSchema([]TypeD{d, docU}, []bool{false, true})}
+		mk := func(id string) j.Resource {
+			r := d.NewRes(false)
+			r.Set("id", id)
+			r.Set("s", "v-"+id)
+			r.Set("one", "u1")
+			if len(d.Attrs) > 1 {
+				r.Set("colour", "red")
+				r.Set("n", Ptr(int(7)))
+				r.Set("many", []string{"u2", "u1"})
+			}
+			return r
+		}
+		doc := &j.Document{PrePath: "https://x", RelData: AllRelData(c.Schema)}
+		frag := []string{"t", "a"}
+		if coll {
+			col := j.WrapCollection(d.NewRes(false))
+			col.Add(mk("a"))
+			col.Add(mk("b"))
+			doc.Data, c.Primary, c.DataKind = col, []j.Resource{mk("a"), mk("b")}, "list"
+			frag = []string{"t"}
+		} else {
+			r := mk("a")
+			doc.Data, c.Primary = r, []j.Resource{r}
+		}
+		fields := map[string][]string{}
+		for _, t := range c.Schema.Types {
+			fields[t.Name] = FieldNames(t)
+		}
+		c.Fields, c.Doc = fields, doc
+		c.URL = &j.URL{Fragments: frag, ResType: "t", IsCol: coll,
+			Params: &j.Params{Fields: fields, RelData: map[string][]string{}, SortingRules: []string{}, Include: [][]j.Rel{}}}
+		c.Desc = fmt.Sprintf("step %d of %d: struct version with %d attributes (collection: %v)", i+1, len(order), len(d.Attrs), coll)
+		x.Render(c.Desc)
+		c02RoundTrip(x, c, "C02:two-structs")
+	}
+	x.R.Mark("nontrivial", mc.Hash(x.Choices()))
+}
+
 type c02Ctor struct {
 	name string
 	mk   func() j.Error
@@ -441,13 +489,14 @@ func c02Interleaved(x *mc.Exec) {
 func init() {
 	Register(&Prop{
 		ID:          "C02",
-		Rule:        "Engine A, all choices Full: the complete product 19 primary-data kinds (incl. a resource without ID and resources with one attribute of every kind at its smallest / largest value, soft and struct-backed) x 5 included lists (ids colliding across types and not, mixed implementations) x 4 metas (nil, {}, scalars, nested/array/null/escapes) x 3 error lists x 6 prefixes x 3 field selections x 2 relationship-data requests; plus every one of the 256 member subsets of one error object, all pairs and triples (with repetition, every order) of 6 representative errors, and errors together with data, every error constructor of the library x 4 argument strings (empty, plain, escape-needing, 40 multi-byte runes), errors whose source/links/meta members are empty strings, null or empty containers. and 16 sizes from 13 to 1001 (around powers of two, not divisible by small worker counts) x 3 collection implementations x {primary collection, included list}, ids in scrambled order. and every ordered pair of 8 richer documents marshaled one after the other before the first payload is read back. Each document is marshaled and unmarshaled against the same schema; oracle written in the harness: kind of primary data, members in order by (type,id,selected values), included as a set keyed by (type,id), meta and error members as canonical JSON. Non-trivial = distinct marshaled payload",
+		Rule:        "Engine A, all choices Full: the complete product 19 primary-data kinds (incl. a resource without ID and resources with one attribute of every kind at its smallest / largest value, soft and struct-backed) x 5 included lists (ids colliding across types and not, mixed implementations) x 4 metas (nil, {}, scalars, nested/array/null/escapes) x 3 error lists x 6 prefixes x 3 field selections x 2 relationship-data requests; plus every one of the 256 member subsets of one error object, all pairs and triples (with repetition, every order) of 6 representative errors, and errors together with data, every error constructor of the library x 4 argument strings (empty, plain, escape-needing, 40 multi-byte runes), errors whose source/links/meta members are empty strings, null or empty containers. and 16 sizes from 13 to 1001 (around powers of two, not divisible by small worker counts) x 3 collection implementations x {primary collection, included list}, ids in scrambled order, and two struct definitions of one type name (each in its own schema) used one after the other. and every ordered pair of 8 richer documents marshaled one after the other before the first payload is read back. Each document is marshaled and unmarshaled against the same schema; oracle written in the harness: kind of primary data, members in order by (type,id,selected values), included as a set keyed by (type,id), meta and error members as canonical JSON. Non-trivial = distinct marshaled payload",
 		Assumptions: []string{"an Identifier document may come back as a single field-less resource with the same type and id (JSON:API cannot tell them apart); weaker reading chosen deliberately", "empty map == absent for meta / links / source"},
 		Harnesses: []Harness{
 			{Name: "C02/docs", Body: c02Docs, Dev: func() int { return 1 }, ShardDepth: 3},
 			{Name: "C02/errors", Body: c02Errors},
 			{Name: "C02/interleaved", Body: c02Interleaved},
 			{Name: "C02/large", Body: c02Large},
+			{Name: "C02/two-structs", Body: c02TwoStructs},
 		},
 	})
 }
